@@ -200,6 +200,48 @@ let run_dp (n : int) (head : bool) : unit =
         end)
     (List.rev w.glog)
 
+(* ---- C01 mode: "c01mon <n>": run the extracted lifecycle automaton (Proofs/LifeMonitor.v, cb_step) over a trace read from stdin
+   (the harness's output); prints "accept" or "reject <line number> <line>" ---- *)
+let run_c01mon (n : int) : unit =
+  let nn = nat_of_int n in
+  let states : (int, lstate) Hashtbl.t = Hashtbl.create 8 in
+  let lineno = ref 0 in
+  let field l k = (* value of " k=..." *)
+    let key = " " ^ k ^ "=" in
+    let rec find i = if i + String.length key > String.length l then None
+      else if String.sub l i (String.length key) = key then
+        let j = (try String.index_from l (i + String.length key) ' ' with Not_found -> String.length l) in
+        Some (String.sub l (i + String.length key) (j - i - String.length key))
+      else find (i + 1) in find 0 in
+  (try
+     while true do
+       let line = input_line stdin in
+       incr lineno;
+       match split_ws line with
+       | "api" :: "construct" :: i :: _ when List.mem "begin" (split_ws line) -> Hashtbl.replace states (int_of_string i) LsOff
+       | "api" :: "copy" :: i :: j :: _ when List.mem "begin" (split_ws line) ->
+         (match Hashtbl.find_opt states (int_of_string j) with Some st -> Hashtbl.replace states (int_of_string i) st | None -> ())
+       | "api" :: "destroy" :: i :: rest when List.exists (fun t -> t = "end") rest -> Hashtbl.remove states (int_of_string i)
+       | "cb" :: i :: w :: r :: m :: _ ->
+         let inst = int_of_string i in
+         (match Hashtbl.find_opt states inst, field line "act" with
+          | Some st, Some act ->
+            let who = if w = "R" then Root else St (nat_of_int (int_of_string (after "S" w))) in
+            let rc = if r = "own" then Own else Inj (nat_of_int (int_of_string (after "I" r))) in
+            let bits = List.init (String.length act) (fun k -> act.[k] = '1') in
+            (match cb_step nn st who rc (method_of_name m) bits with
+             | Some st' -> Hashtbl.replace states inst st'
+             | None -> Printf.printf "reject %d %s\n" !lineno line; exit 0)
+          | _ -> ())
+       | _ -> ()
+     done
+   with End_of_file -> ());
+  print_string "accept\n"
+
+let () =
+  if Array.length Sys.argv >= 3 && Sys.argv.(1) = "c01mon" then begin
+    run_c01mon (int_of_string Sys.argv.(2)); exit 0 end
+
 let () =
   if Array.length Sys.argv >= 4 && Sys.argv.(1) = "dp" then begin
     run_dp (int_of_string Sys.argv.(2)) (Sys.argv.(3) = "1"); exit 0 end
